@@ -9,14 +9,17 @@ CONFIG = dict(
                "any Go map iteration order): a dispatch loop invokes only listeners subscribed right now to exactly that centre "
                "and name, never twice per publication, with bound args followed by the published ones, and misses none that "
                "stays subscribed; no invocation after unsubscribe or clear (ids are never re-used); global registration = "
-               "Global flag, kept by every live global subscription and dropped with the last listener / clear; a global "
+               "Global flag (for every (name, centre) pair nobody (un)registered by hand through the exported GetGlobalEC().Subscribe/Unsubscribe), kept by every live global subscription and dropped with the last listener / clear; a global "
                "publication appends exactly one event per subscribed centre unless its queue holds 999; no lock is held across "
-               "a listener call. The model is tied to the Go code on every run by replaying ~3000 generated cases (~85k op lines) "
+               "a listener call. The model is tied to the Go code on every run by replaying ~3000 generated cases (~80k op lines) "
                "through both and by evaluating the property monitor on the implementation's own traces.",
     level_note="Trusted: Lean kernel, harness/driver line protocol, Go mutex/channel/map semantics (RWMutex write lock waits for the "
                "caller's own read lock; map range under mutation yields deleted-before-reached entries never, inserted ones maybe). "
                "The theorems are about the model; the differential run ties it to the code on sampled histories only. The owner "
-               "goroutine, concurrent publishers and concurrent first subscribers (D17) are exercised by three ops with real goroutines, not proved.",
+               "goroutine and concurrent publishers at the queue limit are proved in the small second model (Model/EventsOwner.lean) and tied by the "
+               "ops rs (real StandardRunService, Stop with a busy owner and queued events) and concfull (real goroutines whose looks at the queue are "
+               "forced into lockstep by a wrapper centre); concurrent publishers below the limit, concurrent first subscribers (D17) and the "
+               "subscribe/unsubscribe-last race are exercised by ops with real goroutines, not proved. The main model stays sequential (one call stack).",
     lean_targets=["Cell2v.Props.C17", "modeld_c17"],
     driver="modeld_c17",
     driver_root="Cell2v.Driver.C17",
@@ -25,6 +28,9 @@ CONFIG = dict(
                        "never_after_unsubscribe", "never_after_clear", "global_once_per_subscribed_centre",
                        "global_once_per_registered_centre", "direct_registration_is_a_set", "racing_subscribe_is_script_then_subscribe", "receiver_matching_rule",
                        "global_registration_tracks_listeners", "reentrant_ops_do_not_block",
+                       "nested_publications_leave_args_intact", "d25_append_in_place_overwrites", "global_delivery_follows_global_flag", "plain_listeners_keep_global_delivery",
+                       "listener_runs_on_owner_goroutine_only", "stop_ends_delivery_and_registration", "delivered_in_publication_order",
+                       "concurrent_publishers_fill_to_cap",
                        "d7_reentrant_unsubscribe_blocked", "d14_light_invoked_after_clear"],
     harness_pkg="./c17",
     mode="accept",
@@ -39,22 +45,29 @@ CONFIG = dict(
     rule="cases generated from one PRNG (VERIF_SEED): 1-3 centres (local, local+useChan, light), 4-10 listener templates with random "
          "scripts (subscribe/GSubscribe/SubscribeNoCheck, unsubscribe by id self/other/never-subscribed, unsubscribe by code pointer, "
          "nested publish up to depth 3, global publish, clear, direct Subscribe/Unsubscribe(name, centre) on the exported global centre), then 4-13 top-level call lines, owner drains, queue probes and a final "
-         "publish of every name on every centre; families quiet / re-entrant / global / clear-heavy / racing-subscribe (a direct Subscribe through a wrapper centre whose GetId() runs a racing script between the global centre's list lookup and store: unsubscribe-last, clear, further subscriptions) / nested-args (listeners with bound args re-publish the event they handle, nesting 1-3, and re-read their arguments afterwards) / receiver-mix (light centre: Subscribe, SubscribeWithReceiver, UnsubscribeWithReceiver and Unsubscribe(cb) mixed for ONE callback value and name, same and different receivers) / direct-global (stray and duplicate direct (un)registrations before and after real GSubscribe calls, then global publications); 999-slot queue cases (global "
+         "publish of every name on every centre; families quiet / re-entrant / global / clear-heavy / racing-subscribe (a direct Subscribe through a wrapper centre whose GetId() runs a racing script between the global centre's list lookup and store: unsubscribe-last, clear, further subscriptions) / nested-args (listeners with bound args re-publish the event they handle, nesting 1-3, and re-read their arguments afterwards) / receiver-mix (light centre: Subscribe, SubscribeWithReceiver, UnsubscribeWithReceiver and Unsubscribe(cb) mixed for ONE callback value and name, same and different receivers) / shared-pointer (light centre: 2-4 listeners of one name sharing a callback pointer - SubscribeNoCheck duplicates or one callback under several receivers - leave in any order, newest first as often as not, by id or by receiver, checked Subscribe of the callback in between must be refused, the last one goes through Unsubscribe(name, cb), then the callback is subscribed again) / swap-inside-listener (listeners that unsubscribe other listeners of the event being delivered AND subscribe new ones to it, same size or one more / less, either order, local / channel-mode / light centres) / direct-global (stray and duplicate direct (un)registrations before and after real GSubscribe calls, then global publications); 999-slot queue cases (global "
          "publication dropped, blocking local publish hangs under the watchdog); malformed stream (unknown centres, templates, tags, "
-         "unparsable scripts); real StandardRunService, concurrent-publisher, concurrent-first-subscriber and subscribe/unsubscribe-last/publish stress cases (real goroutines); corpus = D7, D14 and D17 witnesses. A line "
+         "unparsable scripts); real StandardRunService (half of the cases: Stop from outside while the owner is stuck in a listener and 1-5 global/local publications are still queued; reports goroutine of every invocation and deliveries after Stop), concurrent publishers at the queue limit (2-5 goroutines, 0-3 free slots, a wrapper centre makes them look at the queue in lockstep; reports queue length, publishers that never returned, second centre), concurrent-publisher, concurrent-first-subscriber and subscribe/unsubscribe-last/publish stress cases (real goroutines); two templates in three hand their bound arguments over in a slice with 1-4 spare slots (def ... x=), every listener re-reads its arguments after its script (nested publications included) ran; corpus = D7, D14, D17 and D25 witnesses, shared-pointer / swap / stop-with-queued-events / queue-limit scenarios. A line "
          "is non-trivial when its observation contains at least one listener invocation or a non-empty global fan-out",
     trusted_base=[
         "Lean 4.33.0 kernel; axioms of every property theorem audited on each run (allowed: propext, Classical.choice, Quot.sound)",
+        "hand-written model lean/Cell2v/Model/EventsOwner.lean (run-service-owned centre, publishers at the queue limit): its answers for the ops rs / concfull "
+        "must equal what the real StandardRunService / GlobalEventCenter report (scenario-level tie: the harness plays rsActs / fullActs)",
         "hand-written model lean/Cell2v/Model/Events.lean tied to the Go code by the acceptance run of this check (harness/c17 + modeld_c17 accept): "
         "the implementation's iteration order is the model's guide, everything else must match exactly",
         "property monitor in lean/Cell2v/Driver/C17.lean (spec mode): follows the implementation's invocations, keeps its own subscription table",
+        "argument lists are values in the model (`l.bound ++ a`); that the Go code does not share the subscriber's backing array between invocations (D25) "
+        "is tied by the run only: bound slices with spare capacity + nested publications + re-reading the arguments after the script",
         "harness: listeners are closures / 16 top-level functions interpreting scripts; real listener ids are mapped to template tags; "
         "a hang (real-time watchdog, 300 ms) is the observation `blocked`",
         "Go runtime semantics of sync.RWMutex, channels, map range under mutation, sync.Map",
     ],
     assumptions=[
         "a listener id is not re-used while the centre lives (SerialIdService64 counters do not wrap)",
-        "the owner goroutine is the only receiver of a centre's event channel (drain ops model it; the rs op runs the real StandardRunService)",
+        "the owner goroutine is the only receiver of a centre's event channel (drain ops model it; the rs op runs the real StandardRunService; "
+        "in Model/EventsOwner.lean only the owner's recv step takes from the queue - a second receiver is a different program)",
+        "light-centre listener ids are compared per centre only (each light centre has its own id counter, so UnsubscribeById with an id obtained "
+        "from ANOTHER light centre can hit a local listener with the same number; the harness maps foreign ids to an absent id)",
         "listener scripts terminate (nested publication depth is capped at 3 by the harness and the model alike)",
         "the light centre's receiver API is modelled with receivers as opaque identities (the harness uses one pointer per receiver number)",
         "Unsubscribe(name, cb) of the light centre is exercised only where at most one listener of that name has the code pointer "
